@@ -148,7 +148,9 @@ func c16Profile(tier string) *eng.Profile {
 		return out // the last one is Merge
 	}
 	p := &eng.Profile{ID: "C16", Name: "merge-crash",
-		Cfgs:  []core.Cfg{{Mode: core.KV, Seg: 100}, {Mode: core.K, Seg: 100}, {Mode: core.KV, RW: core.M, Start: core.M, Seg: 100}, {Mode: core.K, RW: core.M, Start: core.M, Seg: 100}},
+		Cfgs: []core.Cfg{{Mode: core.KV, Seg: 100}, {Mode: core.K, Seg: 100}, {Mode: core.KV, RW: core.M, Start: core.M, Seg: 100}, {Mode: core.K, RW: core.M, Start: core.M, Seg: 100},
+			// two 47-byte records fill a segment exactly
+			{Mode: core.K, Seg: 94}},
 		Ops:   ops,
 		Obs:   mixedObsFor,
 		Depth: 4,
